@@ -848,12 +848,22 @@ caf_read_strings (SF_PRIVATE * psf, sf_count_t chunk_size)
 {	char *buf ;
 	char *key, *value ;
 	uint32_t count, hash ;
+	int bytesread ;
 
 	if ((buf = malloc (chunk_size + 1)) == NULL)
 		return (psf->error = SFE_MALLOC_FAILED) ;
 
-	psf_binheader_readf (psf, "E4b", &count, buf, (size_t) chunk_size) ;
+	bytesread = psf_binheader_readf (psf, "E4b", &count, buf, (size_t) chunk_size) ;
 	psf_log_printf (psf, " count: %u\n", count) ;
+
+	/*
+	** Only the bytes that were actually read can hold strings : the size field may
+	** claim far more than the input delivers, and walking the rest of the buffer
+	** takes time proportional to the claim, not to the input.
+	*/
+	bytesread = (bytesread > 4) ? bytesread - 4 : 0 ;
+	if (chunk_size > bytesread)
+		chunk_size = bytesread ;
 
 	/* Force terminate `buf` to make sure. */
 	buf [chunk_size] = 0 ;
